@@ -198,7 +198,7 @@ func (m *Machine) loadIndexed(p *Term, n int) *Term {
 	m.monitor(inb, "fault", fmt.Sprintf("M-bounds: indexed load of %d bytes beyond %s", n, b.String()))
 	stride := n
 	nslots := (end-start)/stride + 1
-	if nslots > m.cfg.MaxIteSlots {
+	if nslots > m.cfg.MaxIteSlots || end < start {
 		return m.loadBitsC(p, n)
 	}
 	// group slots by value
@@ -229,6 +229,24 @@ func (m *Machine) loadIndexed(p *Term, n int) *Term {
 			if m.feasible(c.Not(al)) != Unsat {
 				return m.loadBitsC(p, n)
 			}
+		}
+	}
+	// few distinct (concrete) values: fork on the value class instead of building an ITE term, so that
+	// arithmetic on the loaded value stays linear (size tables such as typeToSize / minWireSize)
+	if len(order) > 1 && len(order) <= m.cfg.SplitGroups {
+		allConst := true
+		for _, id := range order {
+			if !groups[id].val.IsConst() {
+				allConst = false
+			}
+		}
+		if allConst {
+			alts := make([]*Term, len(order))
+			for i, id := range order {
+				alts[i] = groups[id].cond
+			}
+			d := m.decide(alts)
+			return groups[order[d]].val
 		}
 	}
 	// default = most frequent
